@@ -1,9 +1,9 @@
 SPECIFICATION Spec
-CONSTANTS Versions = {1, 2}
+CONSTANTS Versions = {1}
   MaxSteps = 3
   ReAddOnRemove = TRUE
   CachePerFile = FALSE
-  WithRemoval = FALSE
+  WithRemoval = TRUE
   OnlyRotations = FALSE
   Serialized = TRUE
 INVARIANTS Converges ServedIsValidVersion
